@@ -1,6 +1,7 @@
 import Ogorek.Decoder
 import Ogorek.Encoder
 import Ogorek.Conv
+import Ogorek.Opcodes
 import Ogorek.Generated.IsPrint
 
 /-!
@@ -118,6 +119,43 @@ def runDecH (mc : MCfg) (hook : Hook) (inp : Bytes) : String :=
   let calls := " ".intercalate (st.calls.reverse.map (renderResolved st))
   showDec inp.length r ++ " ; " ++ calls
 
+def ip : IsPrint := Generated.isPrint
+
+def joinChunks (o : Out) : Bytes := o.chunks.flatten
+
+/-- Does the value contain a call of the `bytes` / `bytearray` builtins? -/
+partial def hasBuiltinCall : GoVal → Bool
+  | .call m n args =>
+    ((m == sb "__builtin__" || m == sb "builtins") && (n == sb "bytes" || n == sb "bytearray")) || args.any hasBuiltinCall
+  | .list xs => xs.any hasBuiltinCall
+  | .tuple xs => xs.any hasBuiltinCall
+  | .map kvs => kvs.any fun (k, v) => hasBuiltinCall k || hasBuiltinCall v
+  | .dict kvs => kvs.any fun (k, v) => hasBuiltinCall k || hasBuiltinCall v
+  | .ref p => hasBuiltinCall p
+  | _ => false
+
+/-- decode, then re-encode at every protocol and decode again (C05). -/
+def runReenc (c : Cfg) (inp : Bytes) : String :=
+  match decode (goCfg c) none {} inp with
+  | (.error e, _, _) => s!"ERR {classOf e}"
+  | (.ok v, st, _) =>
+    match (resolve st.heap.toArray [] v).run nodeBudget with
+    | none => "SKIP TOOBIG"
+    | some (rv, _) =>
+      let first := rv.render
+      if (first.splitOn "#cycle").length > 1 then "SKIP #cycle" else
+      let per := (List.range 6).map fun p =>
+        let o := encodeTop ip { proto := (p : Nat), su := c.su } none rv
+        match o.err with
+        | some e => s!"p{p}:ENCERR:{e.render}"
+        | none =>
+          match decode (goCfg c) none {} (joinChunks o) with
+          | (.error e, _, _) => s!"p{p}:DECERR:{classOf e}"
+          | (.ok v2, st2, _) =>
+            let r2 := renderResolved st2 v2
+            if r2 == first then s!"p{p}:SAME" else s!"p{p}:DIFF:{r2.replace " " "_"}"
+      s!"OK {first} " ++ " ".intercalate per
+
 def runConv (mc : MCfg) (inp : Bytes) : String :=
   match decode mc none {} inp with
   | (.error e, _, _) => s!"ERR {classOf e}"
@@ -172,7 +210,6 @@ def runDict (spec : String) : String :=
   let (_, out) := ops.foldl step ([], [])
   " | ".intercalate out.reverse
 
-def ip : IsPrint := Generated.isPrint
 
 /-- Ref hook spec: `-` none; `S` object n ↦ string id "id<n>"; `T` ↦ Tuple{"cls", n};
     `N` ↦ string with a newline; `E<k>` only even n are mapped (string ids). -/
@@ -190,7 +227,6 @@ def showOut (o : Out) : String :=
   | none => s!"OK {cs}"
   | some e => s!"ERR {e.render} {o.chunks.length}"
 
-def joinChunks (o : Out) : Bytes := o.chunks.flatten
 
 def handle (line : String) : String :=
   match (line.splitOn " ").filter (· ≠ "") with
@@ -237,6 +273,19 @@ def handle (line : String) : String :=
     | some c, some inp => runConv (goCfg c) inp
     | _, _ => "BADCASE"
   | "dict" :: _ => runDict (line.drop 5).toString
+  | ["scan", proto, hex] =>
+    match proto.toNat?, bytesOfHex? hex with
+    | some p, some b =>
+      match conforms p b with
+      | .ok _ => "OK"
+      | .error e => "BAD " ++ e
+    | _, _ => "BADCASE"
+  | ["optable"] =>
+    " ".intercalate (opTable.map fun o => s!"{o.code.toNat}:{o.name}:{o.proto}:{repr o.arg}")
+  | ["reenc", cfg, hex] =>
+    match parseCfg cfg, bytesOfHex? hex with
+    | some c, some inp => runReenc c inp
+    | _, _ => "BADCASE"
   | ["long", hex] =>
     match bytesOfHex? hex with
     | some b => s!"{decodeLong b}"
